@@ -91,6 +91,10 @@ fn one_for<P: Property>(prop: &P, data: &[u8], ctx: &mut Ctx) {
         }
     };
     ctx.stats.generated += 1;
+    if !prop.fuzzable(&case) {
+        *ctx.stats.labels.entry("left-to-the-proptest-tier".into()).or_default() += 1;
+        return;
+    }
     let (outcome, new, known) = engine::decide(prop, &case);
     let st = &mut ctx.stats;
     st.checks += outcome.checks;
